@@ -90,7 +90,11 @@ def structure(ctx):
     jobs, meta = [], {}
     for i in range(n):
         rng = ctx.rng("c17s", i)
-        p = spec.gen_program(rng, f"m{i:04d}", n_ifaces=rng.choice([0, 1, 2]))
+        if i % 3 == 2:
+            # generic contracts / interfaces with associated types: generic message types and `Self::Assoc`-typed arguments
+            p = spec.gen_generic_program(rng, f"m{i:04d}", n_ifaces=rng.choice([1, 2]))
+        else:
+            p = spec.gen_program(rng, f"m{i:04d}", n_ifaces=rng.choice([0, 1, 2]))
         exp = place_markers(rng, p)
         R = render.R(p)
         jobs.append((f"m{i:04d}_c", "contract", None, R.contract_item(), True))
